@@ -1,6 +1,6 @@
 (* Props_C09.v — C09: one record per address; identities only move forward;
    own address never active; payload of superseded / Down senders discarded. *)
-From Foca Require Import Laws MembersM FocaM L_Members L_MembersInv L_Join L_Forward L_Reject L_Discard Inv Reach L_Told L_Evidence L_Monotone.
+From Foca Require Import Laws MembersM FocaM L_Members L_MembersInv L_Join L_Forward L_Reject L_Discard Inv Reach L_Told L_Evidence L_Monotone L_Rename Concrete.
 
 Section C09.
 Context {Id Addr : Type} {IO : IdOps Id Addr} {CO : CodecOps Id} {HO : HandlerOps Id}.
@@ -96,6 +96,39 @@ Proof.
   intros NF U V. destruct (history_down_final rnd l f a k NF U V) as (k' & V' & H & _). exists k'. auto.
 Qed.
 
+(* EVERY IDENTITY CHANGE IS REPORTED AS RENAME.  rpath es x z: among the effects es there is a chain
+   Rename(x, y1), Rename(y1, y2), ..., Rename(yn, z) (the empty chain when z = x).  Along every call other
+   than the forget-timer every address that has a record keeps one, and the effects of that very call contain
+   such a chain from the identity recorded before to the identity recorded after - whatever the states of
+   the records (a Down record superseded by a Down identity included); over any history without forget-timers
+   the same holds for the concatenated effects. *)
+Theorem C09_rename_terms (es : list (effect Id)) (x z : Id) (ms ms' : @members Id) :
+  (rpath es x z <-> x = z \/ exists y, In (Notify (NRename x y)) es /\ rpath es y z)
+  /\ (renamed ms ms' es <->
+      forall a k, view ms a = Some k -> exists k', view ms' a = Some k' /\ rpath es (m_id k) (m_id k')).
+Proof.
+  split; [|split; auto]. split.
+  - intros H. destruct H as [x|x y z Hin H]; [left; reflexivity|right; exists y; split; assumption].
+  - intros [->|(y & Hin & H)]; [apply rp_refl|eapply rp_step; eauto].
+Qed.
+
+Theorem C09_every_identity_change_is_reported (rnd : oracle) (f : @foca Id Addr HO) (i : @input Id) :
+  match i with ITimer (TRemoveDown _) => False | _ => True end ->
+  uniq (inner (mems f)) ->
+  let '(f', es, _, _) := step rnd f i in
+  uniq (inner (mems f')) /\ renamed (mems f) (mems f') es.
+Proof. exact (step_renames_reported rnd f i). Qed.
+
+Theorem C09_identity_changes_reported_along_histories (rnd : oracle) (l : list (@input Id)) (f : @foca Id Addr HO) :
+  no_forget l -> uniq (inner (mems f)) ->
+  uniq (inner (mems (run_calls rnd f l))) /\ renamed (mems f) (mems (run_calls rnd f l)) (hist_effects rnd f l).
+Proof. exact (history_renames_reported rnd l f). Qed.
+
+Theorem C09_history_effects_meaning (rnd : oracle) (f : @foca Id Addr HO) (i : @input Id) (l : list (@input Id)) :
+  hist_effects rnd f [] = []
+  /\ hist_effects rnd f (i :: l) = snd (fst (fst (step rnd f i))) ++ hist_effects rnd (fst (fst (fst (step rnd f i)))) l.
+Proof. split; reflexivity. Qed.
+
 End C09.
 
 Print Assumptions C09_only_told_addresses.
@@ -106,3 +139,24 @@ Print Assumptions C09_no_fallback.
 Print Assumptions C09_reject_own_source.
 Print Assumptions C09_discard_inactive_sender.
 Print Assumptions C09_identity_moves_forward_along_histories.
+
+(* non-vacuity: a Down record superseded by a Down identity of the same address that wins - the record
+   changes identity and Rename(old, new) is among the effects of the call *)
+Definition ex09_cfg : config := mkConfig 1500000000 500000000 3 10 3000000000 86400000000000 1400 false None None None.
+Definition ex09_o : oracle := fun _ r => match r with RShuffle _ => [0; 1; 2; 3] | RChoose _ => [0] | RRange _ => [0] | RTie _ _ => [] end.
+Definition ex09_f0 : @foca cid N cid_handler := foca_init (mkCid 1 0 0 0) ex09_cfg (mkChst 0 255 []).
+Definition ex09_f : @foca cid N cid_handler :=
+  fst (fst (fst (step ex09_o ex09_f0 (IApplyMany [mkMember (mkCid 2 0 1 0) 0 Down; mkMember (mkCid 3 0 0 0) 0 Alive] false)))).
+Example C09_rename_example :
+  let '(f', es, r, _) := step ex09_o ex09_f (IApplyMany [mkMember (mkCid 2 1 1 0) 0 Down] true) in
+  r = Done
+  /\ option_map (fun k => (m_id k, m_state k)) (view (mems ex09_f) 2) = Some (mkCid 2 0 1 0, Down)
+  /\ option_map (fun k => (m_id k, m_state k)) (view (mems f') 2) = Some (mkCid 2 1 1 0, Down)
+  /\ In (Notify (NRename (mkCid 2 0 1 0) (mkCid 2 1 1 0))) es.
+Proof. vm_compute. repeat split; auto. Qed.
+
+Print Assumptions C09_rename_terms.
+Print Assumptions C09_every_identity_change_is_reported.
+Print Assumptions C09_identity_changes_reported_along_histories.
+Print Assumptions C09_history_effects_meaning.
+Print Assumptions C09_rename_example.
